@@ -199,6 +199,33 @@ def process_noise(k=0):
                 f()
             except BaseException:  # noqa
                 pass
+        # process-wide settings of the standard library that a numeric application may well have changed
+        import decimal
+        decimal.getcontext().prec = (6, 28, 3, 50)[k % 4]
+        decimal.getcontext().rounding = (decimal.ROUND_HALF_EVEN, decimal.ROUND_DOWN, decimal.ROUND_CEILING)[k % 3]
+        # what the library hands out is the caller's to edit: tables of a FactorResult, Token objects of a token list, class lists
+        try:
+            from mathy_core.util import factor_add_terms_ex, factor, get_terms, get_term_ex
+            from mathy_core.expressions import MultiplyExpression
+            from mathy_core.tokenizer import Tokenizer
+            for c in (2, 3, 4, 6, 8, 9, 10, 12):
+                f = factor_add_terms_ex(MultiplyExpression(ConstantExpression(c), VariableExpression("x")), MultiplyExpression(ConstantExpression(c * (1 + k % 3)), VariableExpression("y" if k % 2 else "x")))
+                if f is not False:
+                    f.all_left.clear(); f.all_right.clear()
+                    f.common_factors.clear() if hasattr(f.common_factors, "clear") else None
+                d = factor(c)
+                d.clear()
+            for toks in (Tokenizer().tokenize("1 + 2 - 3 * 4 / 5 ^ 6 ! = ( ) sgn(x)"), Tokenizer(exclude_padding=False).tokenize("7 - (2)"), p.tokenize("4x + 2y^3 - sgn(x)")):
+                for tk in toks:
+                    tk.value = "#"
+                    tk.type = 1 << 13
+            for n in t.to_list():
+                n.classes.append("edited-in-place")
+                n.classes += ["more"]
+            for term in get_terms(t):
+                get_term_ex(term)
+        except BaseException:  # noqa
+            pass
         if k % 2 == 0:
             q = ExpressionParser()
             q.tokenizer.functions["abs"] = AbsExpression                # another parser in this process knows one more function
